@@ -221,7 +221,7 @@ impl CaseDriver for C05 {
                 "the image of the real reader over the C04 text space (library values from the {}-focus grammar walk, value deviations <= {}, every single lexical deviation{}): each text is read with LefLibrary::open; each library obtained, distinct by its Debug rendering (so 1.5 and 1.50 are different inputs of the writer), is written with to_string and with save and both texts are read again and compared with derived equality. A state is one distinct library of the image; non-trivial = it has at least one macro, site, via, extension, property definition or units block.",
                 lefgen::FOCI.len(),
                 self.bound(tier),
-                if tier.is_thorough() { "; two value deviations with global lexical deviations only; local lexical pairs for undeviated values" } else { "" }
+                if tier.is_thorough() { "; two value deviations with every lexical deviation except gaps; local lexical pairs for undeviated values" } else { "" }
             ),
             assumptions: vec![
                 "libraries are de-duplicated per worker process (a library reached through several texts is written once per worker); the verdict of a case does not depend on it".into(),
